@@ -8,7 +8,7 @@
    expiries at any moment it is armed, and the deferred _transmit task at any moment.
    Lost DATA packets need no input of their own: the chunk simply stays outstanding. *)
 From Coq Require Import ZArith List Bool.
-From AV Require Proof.SctpDupP Model.SctpRecv Proof.SctpLoopP.
+From AV Require Proof.SctpDupP Model.SctpRecv Proof.SctpLoopP Model.Rto Proof.RtoP.
 From AV Require Import Gen.SctpConst Model.SctpTx Proof.SctpTxP Proof.SctpTxLiveP.
 Import ListNotations.
 Local Open Scope Z_scope.
@@ -96,13 +96,27 @@ Theorem C02_ideal_sack_is_the_receivers : forall base N (stx : tx) (cs : list R.
 Proof. exact AV.Proof.SctpLoopP.ideal_sack_is_the_receivers. Qed.
 Print Assumptions C02_ideal_sack_is_the_receivers.
 
+(* 7. Bounded time: the delay every SCTP timer (T1, T2, T3) is armed with.  _update_rto is
+   modelled bit-exactly with primitive IEEE-754 floats (Model/Rto.v).  After ANY history of
+   round-trip measurements - any floats: negative (the wall clock stepping back), zero, huge,
+   infinite, NaN - the retransmission timeout is exactly SCTP_RTO_MIN = 1, exactly SCTP_RTO_MAX =
+   60, or a number r with 1 < r and not 60 < r; before the first measurement it is 3.  So a
+   retransmission or handshake timer fires between 1 and 60 seconds after it is armed, never
+   immediately in a busy loop and never "never".  (Print Assumptions lists the kernel's
+   primitive float operations; they are not axioms.) *)
+Module RT := AV.Model.Rto. Module RP := AV.Proof.RtoP.
+Theorem C02_rto_bounded : forall rs s, Forall (fun s' => RP.rto_ok (RT.rto s')) (RT.rto_run s rs).
+Proof. exact RP.rto_always_bounded. Qed.
+Print Assumptions C02_rto_bounded.
+
 (* PARTIAL.  Proved: no deadlock state (1-3); from every reachable state, drainage by the
    fault-free continuation with an ideal peer (4); the ideal peer's answer is the receiver
    model's answer under in-order loss-free delivery (6).  NOT proved: the full closed loop of two
    endpoints within bounded time -- SACK delay, retransmission timers, reordering in the
    fault-free suffix, both directions at once; it is observed by the
    two-endpoint simulator (fault prefix, then fault-free delivery and timer firings until
-   quiescence) on every run.  Real time (RTO values) is outside every theorem. *)
+   quiescence) on every run.  Of real time only the range of the timer delays is a theorem (7);
+   when the timers actually fire is the event loop's business. *)
 
 (* non-vacuity: 5 chunks, SACKs with a gap report three times -> fast retransmit,
    then T3, then everything acknowledged: the invariant's hypotheses are met and the
@@ -120,6 +134,11 @@ Proof.
   - repeat constructor; unfold bok; cbn; try reflexivity; discriminate.
   - vm_compute. repeat split.
 Qed.
+
+(* non-vacuity of theorem 7 (Proof/RtoP.v): measurements 0.25 s, 3 s, 1000 s, -5 s give the timeouts
+   1, 3.71875, 60, 60: the three cases of the bound *)
+Example C02_rto_example : RP.rto_example_statement.
+Proof. exact RP.rto_example. Qed.
 
 (* non-vacuity of theorem 4: after sends, a gap report and a T3 expiry, three inputs of the
    continuation empty the queues *)
